@@ -32,7 +32,7 @@ type c08case struct {
 
 var c08bases = []string{"os", "mem", "mount", "mount-os"}
 
-var c08targets = []string{"f", "d", "e", "new", "nope/new", "f/x", ".", "d/x", "d/sub/deeper", "ln", "../f", "d/../f", ""}
+var c08targets = []string{"f", "d", "e", "new", "nope/new", "f/x", ".", "d/x", "d/sub/deeper", "ln", "../f", "d/../f", "", "lnd/sub/deeper", "lnd/x"}
 
 // c08mkdirPerms: permission arguments for Mkdir/MkdirAll (variant 0 first), incl. ones without owner write/execute
 var c08mkdirPerms = []uint32{0o750, 0o555, 0o500, 0, 0o777}
@@ -153,7 +153,7 @@ func c08build() {
 									c08list = append(c08list, c08case{Base: base, Helper: h, Off: off, FileOff: fo, ArgIndex: ai, Variant: v})
 								}
 							}
-							if (h == "Mkdir" || h == "MkdirAll") && (c08targets[ai] == "new" || c08targets[ai] == "d/sub/deeper" || c08targets[ai] == "nope/new") {
+							if (h == "Mkdir" || h == "MkdirAll") && (c08targets[ai] == "new" || c08targets[ai] == "d/sub/deeper" || c08targets[ai] == "nope/new" || c08targets[ai] == "lnd/sub/deeper") {
 								for v := 1; v < len(c08mkdirPerms); v++ {
 									c08list = append(c08list, c08case{Base: base, Helper: h, Off: off, FileOff: fo, ArgIndex: ai, Variant: v})
 								}
@@ -181,6 +181,11 @@ func c08build() {
 				for _, fo := range []uint32{0, capfs.FileBit(c08fileIface[fh])} {
 					for ai := 0; ai < 2; ai++ {
 						c08list = append(c08list, c08case{Base: base, Helper: fh, FileOff: fo, ArgIndex: ai})
+						if fh == "H.ReadAt" || fh == "H.WriteAt" || fh == "H.Seek" || fh == "H.Truncate" {
+							for v := 1; v <= 2; v++ {
+								c08list = append(c08list, c08case{Base: base, Helper: fh, FileOff: fo, ArgIndex: ai, Variant: v})
+							}
+						}
 						if fh == "H.Chmod" {
 							for v := 1; v < len(c08chmodModes); v++ {
 								c08list = append(c08list, c08case{Base: base, Helper: fh, FileOff: fo, ArgIndex: ai, Variant: v})
@@ -276,6 +281,10 @@ func newC08World(env *core.Env, base string, off, fileOff uint32, state ...int) 
 		}
 		hs.CloseAll()
 	}
+	if base == "os" || base == "mount-os" {
+		// a symbolic link to a directory, so that paths THROUGH a link exist (mem has no links: there lnd is simply missing)
+		_ = hackpadfs.Symlink(w.inner, "d", "lnd")
+	}
 	if (base == "os" || base == "mount-os") && c08withLink {
 		// a symbolic link, so that Lstat and Stat can be told apart
 		_ = hackpadfs.Symlink(w.inner, "f", "ln")
@@ -314,6 +323,9 @@ func c08apply(w *c08world, cs c08case, failAt int, partial ...bool) (fsx.Result,
 		if target == "d" {
 			flag = os.O_RDONLY
 		}
+		if cs.Variant == 2 && cs.Helper != "H.Chmod" && target != "d" {
+			flag = os.O_WRONLY // a handle that cannot read (positional reads must fail without moving anything)
+		}
 		w.base.Reset(-1)
 		o := fsx.Exec(w.fs, fsx.Step{K: "Open", P: target, Flag: flag}, &hs, nil)
 		if !o.OK() {
@@ -328,7 +340,24 @@ func c08apply(w *c08world, cs c08case, failAt int, partial ...bool) (fsx.Result,
 		if cs.Helper == "H.ReadDir" {
 			st.N = -1 // a page of a listing is in unspecified order; compare complete listings
 		}
+		if cs.Variant >= 1 && cs.Helper != "H.Chmod" {
+			st.N = 100 // crosses the end of the file
+		}
 		r = fsx.Exec(w.fs, st, &hs, nil)
+		calls := append([]string(nil), w.base.Calls...)
+		fired := w.base.Fired
+		// where the handle stands afterwards is part of the result: the position is read back, and a write through the
+		// handle (fault-free) shows in the tree where it landed
+		w.base.Reset(-1)
+		if target != "d" && cs.Helper != "H.Close" {
+			pos := fsx.Exec(w.fs, fsx.Step{K: "H.Seek", Off: 0, Whence: 1}, &hs, nil)
+			r.Data += fmt.Sprintf(" |pos=%d,%s", pos.N, pos.Err)
+			_ = fsx.Exec(w.fs, fsx.Step{K: "H.Write", Data: "Z"}, &hs, nil)
+		}
+		w.base.Fired = fired
+		hs.CloseAll()
+		snap, _ := fsx.Snapshot(w.inner, nil)
+		return r, snap, calls
 	} else {
 		st := c08step(cs.Helper, c08targets[cs.ArgIndex], cs.Variant)
 		if st.K == "SubSub" {
@@ -396,6 +425,16 @@ func c08run(env *core.Env, idx int) core.CaseResult {
 	}
 	defer full.cleanup()
 	start, _ := fsx.Snapshot(full.inner, nil)
+	if strings.HasPrefix(cs.Helper, "H.") {
+		// "unchanged" for a handle helper: what the harness's own follow-up (position read back, one byte written through
+		// the handle) leaves when the helper is not called at all
+		if bw, err := newC08World(env, cs.Base, cs.Off, cs.FileOff, cs.State); err == nil { // (same masks: the follow-up write needs Write exposed too)
+			noop := cs
+			noop.Helper = "H.Stat"
+			_, start, _ = c08apply(bw, noop, -1)
+			bw.cleanup()
+		}
+	}
 	fr, fsnap, fcalls := c08apply(full, cs, -1)
 
 	masked, err := newC08World(env, cs.Base, cs.Off, cs.FileOff, cs.State)
